@@ -140,4 +140,19 @@ def hasNegCycle (P : Prog) (roots : List Nat) : Bool :=
   let Q := restrict P roots
   Q.rules.any (fun r => r.neg.any (fun b => reaches Q.rules P.natoms b r.head))
 
+/-- Number of non-zero-weight worlds in which a ROOT atom (a query instance or an evidence atom) itself is undefined
+    in the well-founded model (C02: these programs must be rejected even by a goal-directed grounder). -/
+def undefRootWorlds (P : Prog) (queries : List Nat) (evidence : List (Nat × Bool)) : Nat :=
+  let roots := queries ++ evidence.map (·.1)
+  let Q := restrict P roots
+  (worlds Q.groups).foldl (fun (acc : Nat) (w : World) =>
+    if w.weight == (0 : Rat) then acc else
+    let chosen := w.chosen.foldl (fun a c => a.setIfInBounds c true) (Array.replicate P.nchoices false)
+    let (t, u) := wfm Q.rules chosen P.natoms
+    if roots.any (fun a => getB t a != getB u a) then acc + 1 else acc) 0
+
+/-- Cycle through negation anywhere in the full ground dependency graph (not only in the part relevant to the roots). -/
+def hasNegCycleFull (P : Prog) : Bool :=
+  P.rules.any (fun r => r.neg.any (fun b => reaches P.rules P.natoms b r.head))
+
 end ProbLogModel.Sem
